@@ -129,10 +129,10 @@ fn enabled(sc: &Scenario, model: &[RefSeq], hist: &[Ev]) -> Vec<Ev> {
         // ids outside 1..n: zero, n+1, and ids whose low 32 bits are a valid id (2^32 + 1, 2^32 + n)
         // (one refused header per history, in the scenarios that ask for it)
         if sc.bad_headers && m.touched() && !hist.iter().any(|e| matches!(e, Ev::BadHeader(..))) { cands.push(Ev::BadHeader(s, if q.id % 2 == 0 { 0 } else { 2_000_000 })); }
-        if sc.bad_events { cands.push(Ev::Cont(s, 0)); cands.push(Ev::Cont(s, q.n + 1)); cands.push(Ev::Cont(s, (1u64 << 32) + 1)); if q.n > 1 { cands.push(Ev::Cont(s, (1u64 << 32) + q.n)); } }
+        if sc.bad_events { cands.push(Ev::Cont(s, 0)); if sc.seqs.len() == 1 && q.n <= 3 && !m.header { cands.push(Ev::Cont(s, q.n)); } /* a continuation carrying the header's own id, ahead of the header */ cands.push(Ev::Cont(s, q.n + 1)); cands.push(Ev::Cont(s, (1u64 << 32) + 1)); if q.n > 1 { cands.push(Ev::Cont(s, (1u64 << 32) + q.n)); } }
         for c in cands {
             let times = hist.iter().filter(|e| **e == c).count();
-            let is_bad = matches!(&c, Ev::Cont(_, id) if *id == 0 || *id > q.n) || matches!(&c, Ev::BadHeader(..));
+            let is_bad = matches!(&c, Ev::Cont(_, id) if *id == 0 || *id >= q.n) || matches!(&c, Ev::BadHeader(..));
             if times == 0 { out.push(c); } else if times == 1 && !is_bad && dups_used < sc.dup_budget { out.push(c); }
         }
     }
@@ -379,6 +379,22 @@ fn large_numbers(rep: &Report) {
         std::thread::sleep(Duration::from_millis(250));
         let dropped = a.cleanup_expired();
         if dropped != 300 || a.pending_count() != 0 { rep.violation("an incomplete sequence older than the timeout is still held after cleanup", json!({"sequences_expired_together": 300, "dropped_by_one_sweep": dropped, "pending": a.pending_count()})); }
+        // the swept sequence ids are used again by new three-fragment messages, in every arrival order (ids whose old entry
+        // began with a header, and ids whose old entry began with a continuation): each is returned at its last fragment
+        let orders: [[u64; 3]; 6] = [[3, 2, 1], [3, 1, 2], [2, 3, 1], [2, 1, 3], [1, 3, 2], [1, 2, 3]];
+        for (p, order) in orders.iter().enumerate() {
+            for parity in 0..2u64 {
+                rep.add("evaluations", 1);
+                let seq = 1000 + 2 * (p as u64 + 10) + parity;
+                let mut got: Vec<bool> = vec![];
+                for &fid in order.iter() {
+                    let r = if fid == 3 { a.start_fragment(seq, 3, None, vec![30]) } else { a.add_fragment(seq, fid, vec![fid as u8 * 10]) };
+                    got.push(r.map(|m| m.len() == 3).unwrap_or(false));
+                }
+                if got != vec![false, false, true] { rep.violation("a message that reuses the sequence id of an expired and swept sequence is not returned at its last fragment", json!({"sequence_id": seq, "arrival_order_by_fragment_id": order, "returned_a_three_byte_message_at": got, "pending": a.pending_count()})); }
+            }
+        }
+        if a.pending_count() != 0 { rep.violation("pending_count differs from the number of incomplete sequences", json!({"after": "twelve reused sequence ids all completed", "pending": a.pending_count()})); }
     }
     {
         rep.add("evaluations", 1);
